@@ -1,11 +1,13 @@
 package main
 
 import (
+	"encoding/json"
 	"fmt"
 	"math"
 	"os"
 	"math/rand"
 	"path/filepath"
+	"reflect"
 	"sort"
 	"strconv"
 	"strings"
@@ -26,6 +28,62 @@ const rminMeters = 0.3
 
 type pos struct{ lat, lon float64 }
 
+// stored geometry of an id: a point at the position, or a rectangle / triangle / line around it
+// (for those, Center() and Distance() are those of the bounding rectangle's centre)
+type shape struct {
+	kind string // "" point | bounds | tri | line
+	h    float64
+}
+
+var shapes = map[string]shape{} // key/id -> shape
+
+func gjOf(sh shape, p pos) string {
+	switch sh.kind {
+	case "tri":
+		return fmt.Sprintf(`{"type":"Polygon","coordinates":[[[%s,%s],[%s,%s],[%s,%s],[%s,%s]]]}`,
+			ff(p.lon-sh.h), ff(p.lat-sh.h), ff(p.lon+sh.h), ff(p.lat-sh.h), ff(p.lon), ff(p.lat+sh.h), ff(p.lon-sh.h), ff(p.lat-sh.h))
+	case "line":
+		return fmt.Sprintf(`{"type":"LineString","coordinates":[[%s,%s],[%s,%s]]}`, ff(p.lon-sh.h), ff(p.lat-sh.h/2), ff(p.lon+sh.h), ff(p.lat+sh.h/2))
+	}
+	return ""
+}
+
+func specOf(key, id string, p pos) verifapi.FenceObj {
+	sh := shapes[key+"/"+id]
+	switch sh.kind {
+	case "bounds":
+		return verifapi.FenceObj{Kind: "bounds", MinLat: p.lat - sh.h, MinLon: p.lon - sh.h, MaxLat: p.lat + sh.h, MaxLon: p.lon + sh.h}
+	case "tri", "line":
+		return verifapi.FenceObj{Kind: "json", JSON: gjOf(sh, p)}
+	}
+	return verifapi.FenceObj{Kind: "point", Lat: p.lat, Lon: p.lon}
+}
+
+func setGeom(key, id string, p pos) []string {
+	sh := shapes[key+"/"+id]
+	switch sh.kind {
+	case "bounds":
+		return []string{"BOUNDS", ff(p.lat - sh.h), ff(p.lon - sh.h), ff(p.lat + sh.h), ff(p.lon + sh.h)}
+	case "tri", "line":
+		return []string{"OBJECT", gjOf(sh, p)}
+	}
+	return []string{"POINT", ff(p.lat), ff(p.lon)}
+}
+
+// the object member of a message against the stored geometry
+func sameObject(raw json.RawMessage, key, id string, p pos) bool {
+	sh := shapes[key+"/"+id]
+	switch sh.kind {
+	case "":
+		lat, lon, ok := fencex.PointCoords(raw)
+		return ok && lat == p.lat && lon == p.lon
+	case "bounds":
+		return strings.Contains(string(raw), `"Polygon"`) && strings.Contains(string(raw), ff(p.lat-sh.h))
+	}
+	var a, b interface{}
+	return json.Unmarshal(raw, &a) == nil && json.Unmarshal([]byte(gjOf(sh, p)), &b) == nil && reflect.DeepEqual(a, b)
+}
+
 type roamFence struct {
 	name    string
 	kind    string // chan | hook | live
@@ -33,6 +91,7 @@ type roamFence struct {
 	nodwell bool
 	meters  float64
 	detect  string // "" = no DETECT clause
+	scan    string // ROAM key pattern meters SCAN glob
 }
 
 type step struct {
@@ -61,9 +120,10 @@ func idMatches(pattern, id string) bool {
 	return ok
 }
 
-func inSearchRect(c pos, r float64, o pos) bool {
-	minLat, minLon, maxLat, maxLon := verifapi.RectFromCenter(c.lat, c.lon, r)
-	return verifapi.PointInRect(o.lat, o.lon, minLat, minLon, maxLat, maxLon)
+func inSearchRect(c verifapi.FenceObj, r float64, o verifapi.FenceObj) bool {
+	clat, clon := verifapi.FenceObjCenter(c)
+	minLat, minLon, maxLat, maxLon := verifapi.RectFromCenter(clat, clon, r)
+	return verifapi.FenceHitObj("intersects", verifapi.FenceArea{Kind: "bounds", MinLat: minLat, MinLon: minLon, MaxLat: maxLat, MaxLon: maxLon}, o)
 }
 
 func bits(d float64) string { return strconv.FormatUint(math.Float64bits(d), 10) }
@@ -77,13 +137,20 @@ type expectation struct {
 	cornerCount  int // neighbours inside the search rectangle but outside the circle
 	hrViolations []string
 	dNew         map[string]float64
+	dRev         map[string]float64
 	col          map[string]pos
 }
 
 // expect computes, for one fence and one SET, the direct oracle and the model's prediction.
-func expect(drv *model.Driver, f roamFence, mover string, old *pos, np pos, col map[string]pos) expectation {
+func expect(drv *model.Driver, f roamFence, mkey, rkey, mover string, old *pos, np pos, col map[string]pos) expectation {
+	ms := specOf(mkey, mover, np)
+	var mo verifapi.FenceObj
+	if old != nil {
+		mo = specOf(mkey, mover, *old)
+	}
 	var e expectation
 	e.dNew = map[string]float64{}
+	e.dRev = map[string]float64{}
 	e.col = col
 	ids := make([]string, 0, len(col))
 	for id := range col {
@@ -92,17 +159,18 @@ func expect(drv *model.Driver, f roamFence, mover string, old *pos, np pos, col 
 	sort.Strings(ids)
 	req := []string{"roam", model.H(f.pattern), bits(f.meters), model.B(f.nodwell), model.B(f.detect == ""), model.H(mover), model.B(old != nil)}
 	for _, id := range ids {
-		o := col[id]
-		dNew := verifapi.PointDistance(np.lat, np.lon, o.lat, o.lon)
-		dRev := verifapi.PointDistance(o.lat, o.lon, np.lat, np.lon)
+		o := specOf(rkey, id, col[id])
+		dNew := verifapi.FenceObjDistance(ms, o)
+		dRev := verifapi.FenceObjDistance(o, ms)
 		dOld := 0.0
 		inOld := false
 		if old != nil {
-			dOld = verifapi.PointDistance(old.lat, old.lon, o.lat, o.lon)
-			inOld = inSearchRect(*old, f.meters, o)
+			dOld = verifapi.FenceObjDistance(mo, o)
+			inOld = inSearchRect(mo, f.meters, o)
 		}
-		inNew := inSearchRect(np, f.meters, o)
+		inNew := inSearchRect(ms, f.meters, o)
 		e.dNew[id] = dNew
+		e.dRev[id] = dRev
 		near := func(d float64) bool { return math.Abs(d-f.meters) <= 1e-9*f.meters }
 		if id != mover && (near(dNew) || near(dRev) || (old != nil && near(dOld))) {
 			e.boundary = true
@@ -300,13 +368,22 @@ func runC20(r *hx.Result, cfg hx.Config) {
 	for n := 0; n < nrounds; n++ {
 		rd := round{key: fmt.Sprintf("fleet%d", n), nsteps: nsteps}
 		rd.roamKey = rd.key
-		rd.ids = []string{"car0", "car1", "car2", "bus0", "bus1", "cab", "b", "van7"}[:4+rng.Intn(5)]
+		rd.ids = []string{"car0", "car1", "car1-t", "car2", "bus0", "car0-x", "bus1", "cab", "b", "van7"}[:5+rng.Intn(6)]
 		if n%4 == 3 {
 			rd.roamKey = fmt.Sprintf("depot%d", n)
 			rd.roamIDs = []string{"car7", "car8", "bus9", "c2", "truck"}
 		}
 		rd.center = pos{-65 + 130*rng.Float64(), -170 + 340*rng.Float64()}
 		rd.baseR = []float64{40, 300, 1000, 1000, 5000, 25000}[rng.Intn(6)] * (0.7 + 0.6*rng.Float64())
+		if n%2 == 1 {
+			// non-point objects: a rectangle, a triangle and a line, smaller than the radius
+			hd := rd.baseR / 111000
+			for _, ik := range [][2]string{{"bus0", "bounds"}, {"car2", "tri"}, {"cab", "line"}, {"bus9", "bounds"}, {"c2", "tri"}} {
+				sh := shape{ik[1], hd * (0.05 + 0.3*rng.Float64())}
+				shapes[rd.key+"/"+ik[0]] = sh
+				shapes[rd.roamKey+"/"+ik[0]] = sh
+			}
+		}
 		nf := 4
 		for k := 0; k < nf; k++ {
 			f := roamFence{name: fmt.Sprintf("%s-ch%d", rd.key, k), kind: "chan",
@@ -320,6 +397,8 @@ func runC20(r *hx.Result, cfg hx.Config) {
 			}
 			rd.fences = append(rd.fences, f)
 		}
+		sc := roamFence{name: rd.key + "-scan", kind: "chan", pattern: "car*", meters: rd.fences[0].meters, scan: []string{"-*", "*", "-[tx]"}[rng.Intn(3)]}
+		rd.fences = append(rd.fences, sc)
 		// the same configuration as channel 1 through a webhook, and as channel 0 on a live connection
 		if n%3 == 0 {
 			w := rd.fences[1]
@@ -360,6 +439,9 @@ func runRound(r *hx.Result, cfg hx.Config, rng *rand.Rand, drv *model.Driver, s 
 			args = append(args, "NODWELL")
 		}
 		args = append(args, "ROAM", rd.roamKey, f.pattern, ff(f.meters))
+		if f.scan != "" {
+			args = append(args, "SCAN", f.scan)
+		}
 		switch f.kind {
 		case "chan":
 			v := c.MustDo(append([]string{"SETCHAN", f.name}, args...)...)
@@ -384,7 +466,7 @@ func runRound(r *hx.Result, cfg hx.Config, rng *rand.Rand, drv *model.Driver, s 
 	// static population of a separate roam collection
 	for _, id := range rd.roamIDs {
 		p := place(rng, rd.center, rd.baseR, cats[rng.Intn(len(cats))])
-		c.MustDo("SET", rd.roamKey, id, "POINT", ff(p.lat), ff(p.lon))
+		c.MustDo(append([]string{"SET", rd.roamKey, id}, setGeom(rd.roamKey, id, p)...)...)
 		state[rd.roamKey][id] = p
 	}
 	if live != nil {
@@ -454,7 +536,7 @@ func runRound(r *hx.Result, cfg hx.Config, rng *rand.Rand, drv *model.Driver, s 
 			q := p
 			old = &q
 		}
-		v := c.MustDo("SET", rd.key, st.id, "POINT", ff(st.p.lat), ff(st.p.lon))
+		v := c.MustDo(append([]string{"SET", rd.key, st.id}, setGeom(rd.key, st.id, st.p)...)...)
 		if v.IsErr() {
 			panic("SET refused: " + v.String())
 		}
@@ -491,7 +573,7 @@ func runRound(r *hx.Result, cfg hx.Config, rng *rand.Rand, drv *model.Driver, s 
 		}
 		for fi := range rd.fences {
 			f := rd.fences[fi]
-			e := expect(drv, f, st.id, old, st.p, state[rd.roamKey])
+			e := expect(drv, f, rd.key, rd.roamKey, st.id, old, st.p, state[rd.roamKey])
 			var got []fencex.Msg
 			switch f.kind {
 			case "chan":
@@ -507,7 +589,7 @@ func runRound(r *hx.Result, cfg hx.Config, rng *rand.Rand, drv *model.Driver, s 
 				}
 				got = liveGot
 			}
-			checkStep(r, rd, f, st, old, e, got, label, i)
+			checkStep(drv, r, rd, f, st, old, e, got, label, i)
 		}
 	}
 	// webhook deliveries: the whole sequence of the round
@@ -540,11 +622,11 @@ func runRound(r *hx.Result, cfg hx.Config, rng *rand.Rand, drv *model.Driver, s 
 	c.MustDo("PDELHOOK", rd.key+"*")
 }
 
-func checkStep(r *hx.Result, rd *round, f roamFence, st step, old *pos, e expectation, got []fencex.Msg, label string, idx int) {
+func checkStep(drv *model.Driver, r *hx.Result, rd *round, f roamFence, st step, old *pos, e expectation, got []fencex.Msg, label string, idx int) {
 	obs := entriesOf(got)
 	cs := map[string]interface{}{"round": label, "step": idx, "fence": fmt.Sprintf("%s NEARBY %s%s FENCE%s ROAM %s %s %s", f.kind, rd.key,
 		map[bool]string{true: " DETECT " + f.detect, false: ""}[f.detect != ""], map[bool]string{true: " NODWELL", false: ""}[f.nodwell], rd.roamKey, f.pattern, ff(f.meters)),
-		"set": fmt.Sprintf("SET %s %s POINT %s %s", rd.key, st.id, ff(st.p.lat), ff(st.p.lon)), "category": st.cat}
+		"set": "SET " + rd.key + " " + st.id + " " + strings.Join(setGeom(rd.key, st.id, st.p), " "), "category": st.cat}
 	if old != nil {
 		cs["previous"] = fmt.Sprintf("%s %s", ff(old.lat), ff(old.lon))
 	}
@@ -623,17 +705,76 @@ func checkStep(r *hx.Result, rd *round, f roamFence, st step, old *pos, e expect
 				Case: cs, Impl: entStr(so), Model: entStr(e.oracle)})
 		}
 	}
+	// metres: floor to millimetres of the distance (c20_meters_rounding), and the SCAN member
+	ids := make([]string, 0, len(e.col))
+	for id := range e.col {
+		ids = append(ids, id)
+	}
+	sort.Strings(ids)
+	for _, m := range got {
+		rm, d := m.Nearby, 0.0
+		if rm != nil {
+			d = e.dNew[rm.ID]
+		} else if rm = m.Faraway; rm != nil {
+			d = e.dRev[rm.ID]
+		} else {
+			continue
+		}
+		rep, err := strconv.ParseFloat(rm.Meters.String(), 64)
+		if err != nil || !(rep <= d+1e-9 && d < rep+0.001+1e-9) {
+			r.Fail(hx.Failure{Kind: "oracle", Signature: "roam-meters", What: fmt.Sprintf("reported metres %s for a distance of %.9f: not (reported <= distance < reported + 0.001)", rm.Meters, d), Case: cs, Impl: m.Raw})
+		}
+		if frac := d*1000 - math.Floor(d*1000); frac > 1e-6 && frac < 1-1e-6 {
+			want := drv.Ask("round", strconv.FormatInt(int64(math.Floor(d*1e6)), 10))
+			if gotMM := strconv.FormatInt(int64(math.Round(rep*1000)), 10); gotMM != want {
+				r.Fail(hx.Failure{Kind: "correspondence", Signature: "roam-round-model", What: "printed metres differ from Model.Roam.round_mm of the distance in micrometres", Case: cs, Impl: gotMM, Model: want})
+			}
+		}
+		var gs, ws []string
+		for _, x := range rm.Scan {
+			if x.Self {
+				gs = append(gs, "self:"+model.H(x.ID))
+			} else {
+				gs = append(gs, model.H(x.ID))
+			}
+			if p, ok := e.col[x.ID]; !ok || !sameObject(x.Object, rd.roamKey, x.ID, p) {
+				r.Fail(hx.Failure{Kind: "oracle", Signature: "roam-scan", What: "scan entry does not carry the stored geometry of " + x.ID, Case: cs, Impl: m.Raw})
+			}
+		}
+		if f.scan == "" {
+			if len(rm.Scan) > 0 {
+				r.Fail(hx.Failure{Kind: "oracle", Signature: "roam-scan", What: "scan member on a fence without SCAN", Case: cs, Impl: m.Raw})
+			}
+			continue
+		}
+		if _, ok := e.col[rm.ID]; ok {
+			ws = append(ws, "self:"+model.H(rm.ID))
+		}
+		req := []string{"scan", model.H(rm.ID), model.H(f.scan)}
+		for _, id := range ids {
+			req = append(req, model.H(id))
+			if ok, _ := verifapi.GlobMatch(rm.ID+f.scan, id); ok && id != rm.ID {
+				ws = append(ws, model.H(id))
+			}
+		}
+		r.Dist("scan-entries")
+		if strings.Join(gs, " ") != strings.Join(ws, " ") {
+			r.Fail(hx.Failure{Kind: "oracle", Signature: "roam-scan", What: fmt.Sprintf("scan member of the %s message lists %v; the ids matching %q are %v", rm.ID, gs, rm.ID+f.scan, ws), Case: cs, Impl: m.Raw})
+		}
+		if mod := strings.TrimSpace(strings.TrimPrefix(drv.Ask(req...), "ok")); mod != strings.Join(gs, " ") {
+			r.Fail(hx.Failure{Kind: "correspondence", Signature: "roam-scan-model", What: "scan member differs from Model.Roam.scan_ids", Case: cs, Impl: gs, Model: mod})
+		}
+	}
 	// every message carries the moved object's current id / position, and the neighbour's
 	for _, m := range got {
 		bad := ""
-		lat, lon, ok := fencex.PointCoords(m.Object)
 		switch {
 		case m.Command != "set" || m.Detect != "roam":
 			bad = "command/detect"
 		case m.Key != rd.key || m.ID != st.id:
 			bad = "key/id"
-		case !ok || lat != st.p.lat || lon != st.p.lon:
-			bad = "object is not the new position"
+		case !sameObject(m.Object, rd.key, st.id, st.p):
+			bad = "object is not the new geometry"
 		case f.kind == "chan" && m.Hook != f.name:
 			bad = "hook name"
 		case !m.HasTime:
@@ -643,12 +784,11 @@ func checkStep(r *hx.Result, rd *round, f roamFence, st step, old *pos, e expect
 			if rm == nil {
 				continue
 			}
-			nlat, nlon, nok := fencex.PointCoords(rm.Object)
 			p, exists := e.col[rm.ID]
 			if !exists || rm.Key != rd.roamKey {
 				bad = "neighbour key/id unknown"
-			} else if !nok || nlat != p.lat || nlon != p.lon {
-				bad = "neighbour object is not its stored position"
+			} else if !sameObject(rm.Object, rd.roamKey, rm.ID, p) {
+				bad = "neighbour object is not its stored geometry"
 			}
 		}
 		if bad != "" {
